@@ -26,6 +26,8 @@ class _Session(object):
     def nan(self, k):
         if k == 'np':
             return np.nan
+        if k == 'neg':
+            return -float('nan')          # a NaN with another bit pattern (sign bit set), as inf - inf or 0 * -inf leave behind
         if k not in self.nans:
             self.nans[k] = float('nan')
         return self.nans[k]
